@@ -125,6 +125,7 @@ def h_hostile(ex, srcs, gaps, phase='fresh', length=8, dll='j1939-21'):
     info = {'phase': phase, 'srcs': srcs, 'gaps': gaps}
     # malformed frames may raise inside notify(), but nothing may escape the bus listener (the Notifier thread would die)
     ex.claim('exceptions_contained_at_the_bus_listener', not n.listener_escapes, dict(info, escaped=[repr(e) for e in n.listener_escapes][:2]))
+    ex.claim('frame_handler_returns', n.hung is None, dict(info, hung=n.hung))
     ex.claim('job_thread_alive', n.dead is None, dict(info, died=repr(n.dead)))
     ex.claim('no_busy_spin', not n.spin, info)
     if not n.job_alive():
